@@ -20,6 +20,7 @@ func init() {
 		e.RSharedState()
 		e.RAddsEveryMissing()
 		e.RAddSurvives()
+		e.RImportRoles()
 		e.RDeadAppend()
 		e.RAliasFlow()
 		e.RPackageNamesOwnership()
@@ -70,6 +71,7 @@ func init() {
 		e.RUniqueNames()
 		e.RAddsEveryMissing()
 		e.RAddSurvives()
+		e.RImportRoles()
 		e.RAliasFlow()
 		e.RPackageNamesOwnership()
 		e.RRestoreIdent()
